@@ -796,8 +796,8 @@ struct Digit {
                     }
 
                     if (drop != 0) {
-                        round_up = true;
-                        bigIntDropDigits(b_int, drop);
+                        // Above a halfway point only if something nonzero is dropped.
+                        round_up |= bigIntDropDigits(b_int, drop);
                     }
                 } else {
                     SizeT32 shift   = 0;
@@ -952,17 +952,20 @@ struct Digit {
     }
 
     template <typename BigInt_T>
-    inline static void bigIntDropDigits(BigInt_T &b_int, SizeT32 drop) noexcept {
+    inline static bool bigIntDropDigits(BigInt_T &b_int, SizeT32 drop) noexcept {
         using DigitConst = DigitUtils::DigitConst<BigInt_T::SizeOfType()>;
+        bool has_remainder = false;
 
         while (drop >= DigitConst::MaxPowerOfFive) {
-            b_int /= DigitConst::GetPowerOfFive(DigitConst::MaxPowerOfFive);
+            has_remainder |= (b_int.Divide(DigitConst::GetPowerOfFive(DigitConst::MaxPowerOfFive)) != 0);
             drop -= DigitConst::MaxPowerOfFive;
         }
 
         if (drop != 0) {
-            b_int /= DigitConst::GetPowerOfFive(drop);
+            has_remainder |= (b_int.Divide(DigitConst::GetPowerOfFive(drop)) != 0);
         }
+
+        return has_remainder;
     }
 
     template <typename Stream_T>
